@@ -106,8 +106,12 @@ func VerifyFunc(w *World, cs *ContractSet, ct *Contract) *FuncResult {
 			e.assume(st, g)
 		}
 	}
+	for _, u := range ct.Uses {
+		e.useLemma(ct, u)
+	}
 	entry := st.clone()
 	e.entry = entry
+	e.topArgs = args
 	e.probe(st, "vacuity.pre", "entry")
 	mods, star := e.collectMods(st, ct, args)
 	e.topMods, e.topStar = mods, star || ct.Kind == "lemma"
@@ -234,4 +238,104 @@ func (e *Exec) frameFormula(k string, ot, nt Term, mods []*Ptr, alloc Term) (Ter
 		return tTrue, false
 	}
 	return Term{goal, SBool}, true
+}
+
+// useLemma adds the universal closure of a proved lemma (a `lemma` contract whose parameters are all
+// heap-independent values) as an axiom: forall params. requires ==> ensures, triggered on the
+// recursive-spec-function applications of its conclusion.
+func (e *Exec) useLemma(ct *Contract, name string) {
+	key := name
+	if !strings.Contains(name, "/") && !strings.HasPrefix(name, repoModule) {
+		key = ct.PkgPath + "." + name
+	}
+	lct := e.cs.ByKey[key]
+	if lct == nil {
+		e.unsupported("uses: lemma %s not found", name)
+		return
+	}
+	fn := e.w.lookupFn(lct)
+	if fn == nil {
+		e.unsupported("uses: lemma function %s not found", name)
+		return
+	}
+	var bound []string
+	var args []Value
+	var ranges []Term
+	for i, p := range fn.Params {
+		s := e.ti.sortOf(p.Type())
+		if s == SSlice {
+			e.unsupported("uses: lemma %s has a heap-dependent parameter %s", name, p.Name())
+			return
+		}
+		nm := fmt.Sprintf("l%d.%s", i, smtIdent(p.Name()))
+		bound = append(bound, fmt.Sprintf("(%s %s)", nm, s))
+		v := Term{nm, s}
+		args = append(args, v)
+		if rf := rangeFact(p.Type(), v); rf.S != "true" {
+			ranges = append(ranges, rf)
+		}
+	}
+	st := &State{pc: tTrue, cells: map[*Cell]Value{}, heap: map[string]Term{}, locks: map[string]int{}, alloc: tInt(0)}
+	e.quant++
+	var pres, posts []Term
+	for _, cl := range lct.Requires {
+		if g, ok := e.evalSpec(st, lct.PkgPath, cl.GenFn, args, st); ok {
+			pres = append(pres, g)
+		}
+	}
+	for _, cl := range lct.Ensures {
+		if g, ok := e.evalSpec(st, lct.PkgPath, cl.GenFn, args, st); ok {
+			posts = append(posts, g)
+		}
+	}
+	e.quant--
+	body := tImp(tAnd(append(ranges, pres...)...), tAnd(posts...))
+	pats := rfApps(tAnd(posts...).S)
+	pat := ""
+	if len(pats) > 0 {
+		// keep the pattern only if it mentions every bound variable
+		all := strings.Join(pats, " ")
+		covers := true
+		for i, p := range fn.Params {
+			if !strings.Contains(all, fmt.Sprintf("l%d.%s", i, smtIdent(p.Name()))) {
+				covers = false
+			}
+		}
+		if covers {
+			pat = " :pattern (" + all + ")"
+		}
+	}
+	if pat != "" {
+		e.smt.axioms = append(e.smt.axioms, fmt.Sprintf("(assert (forall (%s) (! %s%s)))", strings.Join(bound, " "), body.S, pat))
+	} else {
+		e.smt.axioms = append(e.smt.axioms, fmt.Sprintf("(assert (forall (%s) %s))", strings.Join(bound, " "), body.S))
+	}
+	e.trusted("lemma " + shortKey(key) + " (proved separately as obligation set " + shortKey(key) + "/*) used as an axiom")
+}
+
+// rfApps extracts the distinct applications of recursive spec functions "(rf.xxx ...)" in a term.
+func rfApps(s string) []string {
+	var out []string
+	seen := map[string]bool{}
+	for i := 0; i+4 < len(s); i++ {
+		if s[i] == '(' && strings.HasPrefix(s[i+1:], "rf.") {
+			d := 0
+			for j := i; j < len(s); j++ {
+				if s[j] == '(' {
+					d++
+				} else if s[j] == ')' {
+					d--
+					if d == 0 {
+						t := s[i : j+1]
+						if !seen[t] {
+							seen[t] = true
+							out = append(out, t)
+						}
+						break
+					}
+				}
+			}
+		}
+	}
+	return out
 }
